@@ -8,18 +8,24 @@ import (
 	"strconv"
 
 	"verif/harness/props"
+	"verif/harness/rig"
 )
 
 var table = map[string]func(props.Cfg) int{
 	"C01": props.C01,
 	"C02": props.C02,
+	"C03": props.C03,
 	"C04": props.C04,
 	"C05": props.C05,
+	"C06": props.C06,
+	"C07": props.C07,
 	"C08": props.C08,
 	"C09": props.C09,
+	"C15": props.C15,
 }
 
 func main() {
+	rig.Init()
 	if len(os.Args) < 2 {
 		fmt.Fprintln(os.Stderr, "usage: vh <property|child-role> [flags]")
 		os.Exit(3)
